@@ -3,6 +3,7 @@ C04 — Key rollover is safe in every interleaving and always completes.
 Property theorems only; helper lemmas live in `KrillModel/Ca/Lemmas*.lean`.
 -/
 import KrillModel.Ca.LemmasDomain
+import KrillModel.Ca.Witnesses
 import KrillModel.Ca.LemmasReach
 import KrillModel.Ca.LemmasRoll
 import KrillModel.Ca.LemmasKeySync
@@ -75,16 +76,6 @@ theorem process_emits_in_domain {s : Sys} {c : Cmd} {evs : List Ev} (h : Reachab
     | none => simp [h2] at hsome
     | some _ => rfl
 
-/-- F-C04-1: with a class-name mapping to a class the parent does not have, a revocation
-request of the child makes `process` return `ChildKeyRevoked` for the unknown class, and
-`apply` unwraps `None` (certauth.rs:391-393).  Reachable state, concrete witness. -/
-def witnessMapped : List Cmd :=
-  [ .repoUpdate [], .addParent 9,
-    .updateEntitlements 9 [⟨0, [1, 2], 100, []⟩] 0 [4],
-    .updateRcvdCert 0 4 { res := [1, 2], na := 100 } 50 [],
-    .childAdd 7 [1, 2],
-    .childCertify 7 0 6 none 60,
-    .childMapping 7 5 0 ]
 
 theorem revoke_under_mapping_panics :
     ∃ s c evs, Reachable s ∧ s.ca.process c = .ok evs ∧ s.exec c = .panic :=
@@ -310,18 +301,6 @@ theorem no_loss_no_dup_partial {s s' : Sys} (h : Reachable s) {na : Int} {evs : 
       simp only [Bool.not_eq_true', Option.isSome_eq_false_iff, Option.isNone_iff_eq_none] at this
       simp [this]
 
-/-- F-C02-1 seen from the roll: suspend → unsuspend → roll; at activation the active child's
-certificate is dropped (it is re-issued as *suspended*). -/
-def staleRoll : List Cmd :=
-  [ .repoUpdate [], .addParent 9,
-    .updateEntitlements 9 [⟨0, [1, 2], 100, []⟩] 0 [4],
-    .updateRcvdCert 0 4 { res := [1, 2], na := 100 } 50 [],
-    .childAdd 7 [1],
-    .childCertify 7 0 6 none 60,
-    .config [(0, ⟨.roa, [(31, 310)], []⟩)],
-    .childSuspend 7, .childUnsuspend 7 10 61,
-    .keyrollInit [(0, 5)],
-    .updateRcvdCert 0 5 { res := [1, 2], na := 100 } 62 [] ]
 
 theorem activation_loses_stale_child :
     ∃ s : Sys, Reachable s ∧
